@@ -827,7 +827,12 @@ fn main() {
                 let mut ok = false;
                 for it in call {
                     if let Item::Impl(im) = it {
-                        if im.trait_.is_none() && type_last_ident(&im.self_ty) == want_ty {
+                        let trait_ok = match (&im.trait_, chk.get("trait").and_then(|t| t.as_str())) {
+                            (None, None) => true,
+                            (Some((_, p, _)), Some(t)) => path_last_ident(p) == t,
+                            _ => false,
+                        };
+                        if trait_ok && type_last_ident(&im.self_ty) == want_ty {
                             for ii in im.items.iter() {
                                 if let ImplItem::Fn(f) = ii {
                                     if f.sig.ident == want_fn {
